@@ -518,3 +518,119 @@ Section Shape.
     - intros (c & H1). apply (proj2 B). left. split; [reflexivity|]. destruct (allres st); [reflexivity|discriminate].
   Qed.
 End Shape.
+
+(** * The hunks of [merge_hunks] against the terms of [merge] *)
+Lemma nth_repeat_lt {A} (a d : A) : forall n t, t < n -> nth t (repeat a n) d = a.
+Proof. induction n as [|n IH]; intros t H; [lia|]. destruct t as [|t]; cbn; [reflexivity|]. apply IH. lia. Qed.
+
+Definition hunk_okP (n : nat) (h : list bytes) : Prop :=
+  match h with [c] => True | _ => length h = n /\ 1 < n end.
+
+Lemma hunk_term_merged_step n t state h :
+  t < n -> hunk_okP n state -> hunk_okP n h ->
+  hunk_okP n (merged_step state h)
+  /\ hunk_term t (merged_step state h) = hunk_term t state ++ hunk_term t h.
+Proof.
+  intros Ht Hs Hh. unfold merged_step. unfold bytes in *.
+  destruct h as [|c [|c2 hr]].
+  - cbn in Hh. lia.
+  - (* resolved hunk *)
+    destruct state as [|b [|b2 sr]]; cbn [map hunk_term hunk_okP] in *.
+    + cbn in Hs. lia.
+    + split; [exact I|reflexivity].
+    + destruct Hs as (Ls & Hn). split.
+      * split; [|assumption]. cbn [length] in *. now rewrite map_length.
+      * change ((b ++ c) :: (b2 ++ c) :: map (fun buf : bytes => buf ++ c) sr)
+          with (map (fun buf : bytes => buf ++ c) (b :: b2 :: sr)).
+        apply (nth_map_default (fun buf : bytes => buf ++ c) (b :: b2 :: sr) t [] []). lia.
+  - destruct Hh as (Lh & Hn). set (h := c :: c2 :: hr) in *.
+    assert (Q : forall st', length st' = n -> hunk_okP n (map2 (@app N) st' h)
+                /\ hunk_term t (map2 (@app N) st' h) = nth t st' [] ++ nth t h []).
+    { intros st' L. assert (Lm : length (map2 (@app N) st' h) = n) by (rewrite map2_length; lia).
+      split.
+      - destruct (map2 (@app N) st' h) as [|x [|y z]]; cbn [length] in Lm; try lia. split; [assumption|lia].
+      - assert (E : hunk_term t (map2 (@app N) st' h) = nth t (map2 (@app N) st' h) []).
+        { destruct (map2 (@app N) st' h) as [|x [|y z]]; cbn [length] in Lm; try lia. reflexivity. }
+        rewrite E. apply (map2_nth (@app N) st' h t [] [] []); lia. }
+    destruct state as [|b [|b2 sr]].
+    + cbn in Hs. lia.
+    + destruct (Q (repeat b (length h))) as (A & B); [rewrite repeat_length; exact Lh|].
+      split; [exact A|]. rewrite B. cbn [hunk_term]. f_equal. apply nth_repeat_lt. lia.
+    + destruct Hs as (Ls & _). destruct (Q (b :: b2 :: sr) Ls) as (A & B). split; [exact A|]. rewrite B. reflexivity.
+Qed.
+
+Lemma collect_merged_terms n t st : t < n -> Forall (hunk_okP n) st ->
+  forall state, hunk_okP n state ->
+  hunk_okP n (fold_left merged_step st state)
+  /\ hunk_term t (fold_left merged_step st state) = hunk_term t state ++ concat (map (hunk_term t) st).
+Proof.
+  intros Ht. induction 1 as [|h rest Hh Hr IH]; intros state Hs; cbn [fold_left map concat].
+  - split; [assumption|now rewrite app_nil_r].
+  - destruct (hunk_term_merged_step n t state h Ht Hs Hh) as (A & B).
+    destruct (IH _ A) as (C & D). split; [assumption|]. now rewrite D, B, app_assoc.
+Qed.
+
+(** [collect_hunks]: resolved texts are non-empty and never adjacent; term-wise the hunks
+    concatenate to what [collect_merged] returns. *)
+Definition chunk_ok (n : nat) (h : list bytes) : Prop :=
+  match h with [c] => c <> [] | _ => length h = n /\ 1 < n end.
+Definition ends_unresolved (acc : list (list bytes)) : Prop :=
+  acc = [] \/ is_resolved (last acc []) = false.
+
+Lemma no_adjacent_snoc acc x :
+  no_adjacent_resolved acc = true -> (ends_unresolved acc \/ is_resolved x = false) ->
+  no_adjacent_resolved (acc ++ [x]) = true.
+Proof.
+  induction acc as [|a acc IH]; intros H E; [reflexivity|].
+  destruct acc as [|b acc'].
+  - cbn [app no_adjacent_resolved]. rewrite Bool.andb_true_r. apply Bool.negb_true_iff.
+    destruct E as [[E|E]|E]; [discriminate|cbn in E; now rewrite E|rewrite E; apply Bool.andb_false_r].
+  - cbn [app] in *. change (no_adjacent_resolved (a :: b :: acc' ++ [x]))
+      with (negb (is_resolved a && is_resolved b) && no_adjacent_resolved (b :: acc' ++ [x])).
+    change (no_adjacent_resolved (a :: b :: acc')) with
+        (negb (is_resolved a && is_resolved b) && no_adjacent_resolved (b :: acc')) in H.
+    apply Bool.andb_true_iff in H. destruct H as (H1 & H2). rewrite H1. cbn [andb].
+    apply IH; [assumption|]. destruct E as [[E|E]|E]; [discriminate| |right; assumption].
+    left. right. now rewrite last_cons_last in E |- *.
+Qed.
+
+Lemma collect_hunks_go_spec n t st : Forall (hunk_okP n) st -> forall buf acc,
+  Forall (chunk_ok n) acc -> no_adjacent_resolved acc = true -> ends_unresolved acc ->
+  let '(buf', acc') := collect_hunks_go st buf acc in
+  let hs := if is_nil buf' then acc' else acc' ++ [[buf']] in
+  Forall (chunk_ok n) hs /\ no_adjacent_resolved hs = true
+  /\ concat (map (hunk_term t) hs)
+     = concat (map (hunk_term t) acc) ++ buf ++ concat (map (hunk_term t) st).
+Proof.
+  induction 1 as [|h rest Hh Hr IH]; intros buf acc Ha Hn He; cbn [collect_hunks_go map concat].
+  - rewrite app_nil_r. destruct buf as [|b0 bt] eqn:Eb; cbn [is_nil].
+    + repeat split; auto. now rewrite app_nil_r.
+    + repeat split.
+      * apply Forall_app. split; [assumption|]. constructor; [cbn; discriminate|constructor].
+      * apply no_adjacent_snoc; auto.
+      * rewrite map_app, concat_app. cbn [map concat hunk_term]. now rewrite app_nil_r.
+  - destruct h as [|c [|c2 hr]].
+    + cbn in Hh. lia.
+    + (* resolved *) specialize (IH (buf ++ c) acc Ha Hn He).
+      destruct (collect_hunks_go rest (buf ++ c) acc) as [buf' acc']. cbv zeta in *.
+      destruct IH as (A & B & C). repeat split; auto. rewrite C. cbn [hunk_term]. now rewrite <- !app_assoc.
+    + (* unresolved: flush the buffer *)
+      set (h := c :: c2 :: hr) in *.
+      set (acc1 := (if is_nil buf then acc else acc ++ [[buf]]) ++ [h]).
+      assert (A1 : Forall (chunk_ok n) acc1).
+      { unfold acc1. apply Forall_app. split; [|constructor; [exact Hh|constructor]].
+        destruct buf; cbn [is_nil]; [assumption|]. apply Forall_app. split; [assumption|].
+        constructor; [cbn; discriminate|constructor]. }
+      assert (N1 : no_adjacent_resolved acc1 = true).
+      { unfold acc1. apply no_adjacent_snoc; [|right; reflexivity].
+        destruct buf; cbn [is_nil]; [assumption|]. apply no_adjacent_snoc; auto. }
+      assert (E1 : ends_unresolved acc1).
+      { right. unfold acc1. rewrite last_last. reflexivity. }
+      specialize (IH [] acc1 A1 N1 E1).
+      destruct (collect_hunks_go rest [] acc1) as [buf' acc']. cbv zeta in *.
+      destruct IH as (A & B & C). repeat split; auto. rewrite C. unfold acc1.
+      rewrite map_app, concat_app. cbn [map concat app]. rewrite app_nil_r.
+      destruct buf as [|b0 bt]; cbn [is_nil].
+      * cbn [app]. now rewrite <- !app_assoc.
+      * rewrite map_app, concat_app. cbn [map concat hunk_term]. rewrite app_nil_r. now rewrite <- !app_assoc.
+Qed.
